@@ -163,7 +163,7 @@ def mpo_dense_of(basis, terms, stacked):
     return S.dense(m), [m]
 
 
-def contract_integrals(led, h, e, key, rep, tier):
+def contract_integrals(led, h, e, key, rep, tier, with_noqn=True):
     """all Part-1 clauses for one pair of spatial integral tensors"""
     from renormalizer.model import h_qc
     from renormalizer.model.basis import BasisHalfSpin
@@ -186,7 +186,7 @@ def contract_integrals(led, h, e, key, rep, tier):
     Na, Nb = F.number_ops(n)
     dense = {}
     for stacked in (False, True):
-        for qn in (True, False):
+        for qn in ((True, False) if with_noqn else (True,)):
             var = ("stacked" if stacked else "flat", "qn" if qn else "noqn")
             vf = dict(fields, stacked=stacked, conserve_qn=qn)
             vrep = dict(rep, stacked=stacked, conserve_qn=qn)
@@ -258,7 +258,7 @@ def worker_jwpat(case, led):
         h, e = F.integrals(k, "pattern", rng, bits)
         rep = {"norb": k, "pattern_bits_over_unique_entries": bits, "unique_h": F.unique_h(k), "unique_eri": F.unique_eri(k),
                "h": jarr(h), "eri": jarr(e), "seed": seed}
-        contract_integrals(led, h, e, ("jwpat", k, pat), rep, tier)
+        contract_integrals(led, h, e, ("jwpat", k, pat), rep, tier, with_noqn=(tier != "quick" or pat % 4 == 1))
 
 
 def worker_raw(case, led):
@@ -352,7 +352,7 @@ def worker_ladder(case, led):
 
 
 # ------------------------------------------------------------------------------------------------ part 2: try_swap_site
-def check_operator_after_swap(led, mpo, D0, D1, dims, i, jw, key, fields, rep, via, nontriv=True):
+def check_operator_after_swap(led, mpo, D0, D1, dims, i, jw, key, fields, rep, via, nontriv=True, extra=""):
     scale = max(1.0, amax(D0))
     if jw:
         T = swap_matrix(dims, i, True)
@@ -367,8 +367,8 @@ def check_operator_after_swap(led, mpo, D0, D1, dims, i, jw, key, fields, rep, v
         ok = close(D1, T @ D0 @ T.T, scale)
         oid, what = "post:Mpo.try_swap_site:permuted_operator", \
             f"swap_jw=False at sites ({i},{i + 1}): operator differs from P H P^T by {amax(D1 - T @ D0 @ T.T):.3e}"
-    led.check(ok, oid, "Mpo.try_swap_site", what, key, dict(fields, via=via), rep, nontriv)
-    return T
+    led.check(ok, oid, "Mpo.try_swap_site", what + extra, key, dict(fields, via=via), rep, nontriv)
+    return ok
 
 
 def worker_swap(case, led):
@@ -398,7 +398,7 @@ def worker_swap(case, led):
     led.check(close(S.dense(m0), keep, scale), "post:Mpo.try_swap_site:noop_for_same_order", "Mpo.try_swap_site", "operator changed although the order is the same",
               ("swap", family, n, jw, "noop"), fields, base_rep, False)
     seqs = [s for L in (1, 2, 3) for s in itertools.product(range(n - 1), repeat=L)]
-    limit = (48 if tier == "quick" else 400) if n > 4 else len(seqs)
+    limit = (24 if tier == "quick" else 400) if n > 4 else len(seqs)
     if len(seqs) > limit:
         sel = list(range(n - 1)) + sorted(rng.choice(np.arange(n - 1, len(seqs)), size=limit - (n - 1), replace=False).tolist())
         seqs = [seqs[j] for j in sel]
@@ -567,10 +567,14 @@ def worker_step(case, led):
             led.check(not v, "post:MatrixProduct._update_mps:ofs_qn_valid", "MatrixProduct._update_mps", f"labels invalid: {v[:1]}", key + ("qnv",), fields, rep, swapped)
             # ---- operator
             if swapped:
-                check_operator_after_swap(led, mpo, H_before, H_after, dims, cidx[0], jw, key + ("op",), fields, rep, "ofs_step")
+                extra = "" if mpdm else (f"; consequence: <psi|H|psi> = {np.vdot(before, H_before @ before).real:.8f} before and "
+                                         f"{np.vdot(after, H_after @ after).real:.8f} after this exchange step")
+                op_ok = check_operator_after_swap(led, mpo, H_before, H_after, dims, cidx[0], jw, key + ("op",), fields, rep, "ofs_step", extra=extra)
             else:
-                led.check(close(H_after, H_before, scale), "post:Mpo.try_swap_site:noop_for_same_order", "Mpo.try_swap_site", "operator changed without a swap",
-                          key + ("op",), fields, rep, False)
+                op_ok = led.check(close(H_after, H_before, scale), "post:Mpo.try_swap_site:noop_for_same_order", "Mpo.try_swap_site",
+                                  "operator changed without a swap", key + ("op",), fields, rep, False)
+            if not op_ok:
+                return      # root cause reported; the remaining clauses of this run presuppose a correctly re-ordered operator
             # ---- energy seen by the sweep
             if not mpdm and loss_sel <= 1e-24:
                 e_b = np.vdot(before, H_before @ before).real
@@ -639,15 +643,17 @@ def worker_evolve(case, led):
                   key + ("debug",), fields, rep, False)
     X = reorder_matrix(dims0, order, jw)
     v = S.dense(mps)
+    H1 = S.dense(mpo)
+    dH = amax(H1 - X @ H0 @ X.T)
+    op_ok = led.check(dH <= TOL * scale, "post:Mpo.try_swap_site:fermionic_reorder" if jw else "post:Mpo.try_swap_site:permuted_operator", "Mpo.try_swap_site",
+                      f"after evolve the (in-place re-ordered) operator differs from X H X^T by {dH:.3e}; final order {order}; consequence for this run: "
+                      f"|state - X exp(-iHt) psi0| = {amax(v - X @ exact):.3e}", key + ("op",), dict(fields, via="evolve"), rep, moved)
+    if not op_ok:
+        return          # root cause reported; the state / energy clauses presuppose a correctly re-ordered operator
     d = amax(v - X @ exact)
     led.check(d <= tol_state, "post:Mps.evolve:ofs_state_equals_exact_reordered", "Mps.evolve",
               f"evolved state differs from X exp(-iHt) psi0 by {d:.3e} (tolerance {tol_state:.1e}; without OFS the same run deviates by "
               f"{amax(S.dense(base) - exact):.1e}); final order {order}, swap_jw={jw}", key + ("state",), fields, rep, moved)
-    H1 = S.dense(mpo)
-    dH = amax(H1 - X @ H0 @ X.T)
-    led.check(dH <= TOL * scale, "post:Mpo.try_swap_site:fermionic_reorder" if jw else "post:Mpo.try_swap_site:permuted_operator", "Mpo.try_swap_site",
-              f"after evolve the (in-place re-ordered) operator differs from X H X^T by {dH:.3e}; final order {order}", key + ("op",),
-              dict(fields, via="evolve"), rep, moved)
     e0 = np.vdot(psi0, H0 @ psi0).real
     e1 = (np.vdot(v, H1 @ v) / np.vdot(v, v)).real
     led.check(abs(e1 - e0) <= 4 * tol_state * scale, "post:Mps.evolve:ofs_energy_conserved", "Mps.evolve",
@@ -726,9 +732,11 @@ def worker_opt(case, led):
     Hm = S.dense(mpo)
     dH = amax(Hm - Xm @ H0 @ Xm.T)
     moved_m = order_mpo != list(range(n))
-    led.check(dH <= TOL * scale, "post:Mpo.try_swap_site:fermionic_reorder" if jw else "post:Mpo.try_swap_site:permuted_operator", "Mpo.try_swap_site",
-              f"after optimize_mps the (in-place re-ordered) operator differs from X H X^T by {dH:.3e}; operator order {order_mpo}", key + ("op",),
-              dict(fields, via="optimize_mps"), rep, moved_m)
+    op_ok = led.check(dH <= TOL * scale, "post:Mpo.try_swap_site:fermionic_reorder" if jw else "post:Mpo.try_swap_site:permuted_operator", "Mpo.try_swap_site",
+                      f"after optimize_mps the (in-place re-ordered) operator differs from X H X^T by {dH:.3e}; operator order {order_mpo}", key + ("op",),
+                      dict(fields, via="optimize_mps"), rep, moved_m)
+    if not op_ok:
+        return          # root cause reported; the state / energy clauses presuppose a correctly re-ordered operator
     w1 = np.linalg.eigvalsh((Hm + Hm.conj().T) / 2)
     led.check(close(w1, np.linalg.eigvalsh(H0), scale), "post:Mpo.try_swap_site:spectrum_unchanged", "Mpo.try_swap_site", "spectrum of the re-ordered operator changed",
               key + ("spec",), dict(fields, via="optimize_mps"), rep, moved_m)
@@ -813,7 +821,7 @@ def enumerate_cases(tier, seed):
             cases.append(("jwpat", k, start, min(2 ** nbits, start + chunk), seed, tier))
     for n in ([1, 2, 3, 4] if quick else [1, 2, 3, 4, 5, 6]):
         for cons in (True, False):
-            for idx in range(3 if quick else 8):
+            for idx in range(6 if quick else 12):
                 cases.append(("raw", n, cons, idx, seed, tier))
     for n in ([1, 2, 3, 4] if quick else [1, 2, 3, 4, 5, 6]):
         cases.append(("ladder", n, seed, tier))
